@@ -13,6 +13,16 @@ tree on every run); its HTTP response is fetched over TCP.  In Coq: the model's
 print (to_json s) must equal the JSON bytes, the model's render must equal the
 HTTP response byte for byte, and the oracle ok_C19 (written from the property
 text) judges the IMPLEMENTATION's bytes.
+
+The exporter is ONE long-running process whose response buffer lives across
+requests (Exporter/AcceptLoop.v carries it as state; Properties/C19.v:
+C19_wire_fresh, C19_reply_is_own_observation).  Therefore every state is served
+after a HISTORY of other clients (see `history_of`): resets while a response is
+pending (write error on the 200 path with ANOTHER state's response in the
+buffer, and on the 500 path), failing / slow observation sockets, premature
+closes.  Everything the exporter writes on the judged connection is read up to
+EOF, so the oracle sees whether it is exactly ONE response with the values of
+the state served for THAT request.
 """
 import binascii
 import os
@@ -31,7 +41,7 @@ META = {
     "property_id": "C19",
     "technique": "Coq proof (JSON print/parse round trip for all values and all states, exposition-format rendering parses back, finite theorems over the metric table translated from format.rs) + byte-exact correspondence of the JSON and HTTP/Prometheus model against serde_json and the real statime-metrics-exporter binary",
     "category": "proof",
-    "text": "Properties/C19.v: table theorems over the metric table regenerated from format.rs on every run (unit in the name = unit of the value, boolean help text = true-as-1 encoding, for EVERY row, no exemption), json_roundtrip (of_json (parse (print (to_json s))) = Some s for every well-formed state, path trace lists and port lists of any length, integers of any size), render/parse theorems for the exposition format and Content-Length.  Tie: states built with the real statime types -> serde_json::to_vec bytes == model bytes; same bytes served to the real exporter binary; HTTP response == model's render byte for byte; oracle ok_C19 evaluated on the implementation's bytes.",
+    "text": "Properties/C19.v: table theorems over the metric table regenerated from format.rs on every run (unit in the name = unit of the value, boolean help text = true-as-1 encoding, for EVERY row, no exemption), json_roundtrip (of_json (parse (print (to_json s))) = Some s for every well-formed state, path trace lists and port lists of any length, integers of any size), render/parse theorems for the exposition format and Content-Length; C19_wire_fresh / C19_reply_is_own_observation (accept-loop machine carrying the response buffer across requests: for EVERY list of connection scripts each client receives exactly its own request's handler output, nothing of an earlier reply - after resets, write errors, failing handlers), C19_clear_after_write_refuted (the counterfactual 'clear after a successful write' serves stale bytes).  Tie: states built with the real statime types -> serde_json::to_vec bytes == model bytes; same bytes served to the real exporter binary; everything the exporter wrote on the connection (read up to EOF) == model's render byte for byte; oracle ok_C19 evaluated on the implementation's bytes.  All states go through ONE exporter process, 5 of every 12 after a history of other clients (resets while a 200 response of ANOTHER state / a 500 response is pending, failing observation sockets, premature close), every 40th from a slow observation socket.",
     "design_ref": "DESIGN.md section 6 (C19), section 7 (F10, F11)",
     "level_note": "Trusted: Coq 8.16.1 kernel + vm_compute (+ primitive 63-bit integers, used only to transport bytes into case files); translate/gen_metric_table.py and the hand-written classification Obs/MetricSpec.v; hand-written models Obs/Json.v, Obs/Prom.v (validated byte for byte by this run's correspondence); f64 Display / serde_json float printing and parsing are NOT modelled (decimal tokens are supplied by the implementation and compared as strings; the oracle reads them as exact rationals); serde, serde_json, tokio, harness, drivers. The snapshot getters (instance state -> observable data sets) are covered by the port/instance correspondences, not here. F10, F11, the one-ulp uptime change and the 16 KiB single read are repaired (fef2df5, 906e592, 84ad86f, 04bf296); no known finding is excused.",
 }
@@ -50,6 +60,8 @@ class S(Spec):
         "hand-written models Obs/Json.v (serde / serde_json) and Obs/Prom.v (format.rs), validated byte for byte by this run",
         "f64 Display, serde_json's float printer and parser: abstract tokens supplied by the implementation",
         "harness/src/bin/c19.rs (real statime types -> state term, tokens, serde_json::to_vec), checks/c19.py + checks/obs_driver.py, lib/vlib.py",
+        "hand-written model Exporter/AcceptLoop.v of the accept loop incl. the response buffer (its status/liveness side is validated by C20's correspondence; its content side by this run: every reply after a history equals the render of the state served for that request)",
+        "Linux TCP semantics for the reset histories (RST delivery observed through /proc/net/tcp before the observation socket answers)",
     ]
     assumptions = [
         "strings in the state (version, commit, date) are free of double quotes and backslashes (the JSON model has no escapes)",
@@ -61,7 +73,11 @@ class S(Spec):
             "delay mechanism by (i + port) mod 5, path trace length from {0,1,2,8,127,128,random}, offsets/delays from a lattice "
             "(0, 1 bit, 1 ns, 1.5 us, 1 ms, 1 s, 2^63 +-1, 2^64+, 10 s, uniform) with both signs, uptimes incl. exponent notation and 17-digit values; "
             "big boundary clocks (52-71 ports, JSON > 16 KiB) are a family of their own; every third state and every large one reaches the exporter in several chunks; "
-            "a class is (role, size flag, ports, path length class, offset sign/size, time-property bits, port states, delivery); all classes are non-trivial")
+            "all states are served by ONE exporter process; by i mod 12 a state is requested after a history of other clients on the same process "
+            "(2: reset while the 200 response of the PREVIOUS state is pending; 4: reset while a 500 is pending (observation socket closes early); 6: the same with invalid JSON, then a patient client answered 500; "
+            "8: premature close, two pending-response resets; 10: truncated JSON answered 500, then a pending-response reset), i mod 40 = 7: slow (0.3 s) observation socket; "
+            "the observation socket holds its answer until the reset is confirmed delivered; everything written on the judged connection is read up to EOF; "
+            "a class is (role, size flag, ports, path length class, offset sign/size, time-property bits, port states, delivery, history and its outcomes); all classes are non-trivial")
     level = "proof"
 
 
@@ -75,21 +91,116 @@ def translate():
 
 
 
-def drive_cases(lines, binary):
-    """Feeds every state to ONE exporter process; returns cases [(index, class, term)]."""
+SLOW = 0.30      # a slow observation socket answers after this many seconds
+
+# What other clients did to the SAME exporter process right before state i is requested
+# (a pure function of the index, so a replay reproduces it on a fresh process).
+HISTORIES = {
+    2: ["rst:valid"],                       # reset while the 200 response (of ANOTHER state) is pending
+    4: ["rst:early"],                       # reset while the 500 response is pending
+    6: ["rst:invalid", "get:early"],        # the same with invalid JSON, then a patient client getting 500
+    8: ["close", "rst:valid", "rst:valid"],  # premature close, two pending-response resets in a row
+    10: ["get:trunc", "rst:valid"],         # truncated JSON answered with 500, then a reset on the 200 path
+}
+
+
+def history_of(i):
+    return HISTORIES.get(i % 12, [])
+
+
+def slow_of(i):
+    """Every 40th state comes from a SLOW observation socket (patient client)."""
+    return SLOW if i % 40 == 7 else 0.0
+
+
+def play_history(exp, hist, other_js):
+    """Plays the behaviours of `hist`; `other_js`: valid JSON of a DIFFERENT state (what the
+    observation socket serves to the clients that reset).  Returns a tag for the case class."""
+    tags = []
+    for h in hist:
+        if exp.exit_code() is not None:
+            break
+        kind, _, mode = h.partition(":")
+        if kind == "rst":
+            if mode == "valid" and other_js is None:
+                mode = "early"
+            exp.obs.set_mode(mode, other_js if mode == "valid" else None)
+            held, confirmed = D.get_then_reset_while_pending(exp)
+            tags.append("%s%s" % (h, "" if (held and confirmed) else "(unconfirmed)"))
+        elif kind == "get":
+            exp.obs.set_mode(mode, other_js if other_js is not None else None)
+            r = D.http_get(exp, 5.0, until_eof=True)
+            tags.append("%s=%s" % (h, r[1] if r[0] == "status" else r[0]))
+        elif kind == "close":
+            try:
+                s = exp.connect()
+                s.sendall(b"GET /metr")
+                s.close()
+            except OSError:
+                pass
+            tags.append(h)
+    return ",".join(tags)
+
+
+class Proc:
+    """ONE exporter process for all cases; started again only when it has exited."""
+
+    def __init__(self, binary):
+        self.binary, self.exp, self.starts = binary, None, 0
+
+    def get(self):
+        if self.exp is not None and self.exp.exit_code() is not None:
+            self.close()
+        if self.exp is None:
+            self.starts += 1
+            self.exp = D.Exporter("c19-%d" % self.starts, b"{}", self.binary).__enter__()
+        return self.exp
+
+    def close(self):
+        if self.exp is not None:
+            self.exp.__exit__(None, None, None)
+            self.exp = None
+
+
+def drive_cases(lines, binary, only=None, notes=None):
+    """Feeds every state to ONE exporter process, each after its history; returns cases
+    [(index, class, term)].  only: set of indices to judge (the others only lend their JSON to
+    the histories).  notes: list receiving remarks (exporter exits)."""
     cases = []
-    with D.Exporter("c19", b"{}", binary) as exp:
+    proc = Proc(binary)
+    other_js = None
+    try:
         for (i, cls, term) in lines:
             st, ft, hx = term.split(" @@ ")
             js = binascii.unhexlify(hx)
+            if only is not None and i not in only:
+                other_js = js
+                continue
+            exp = proc.get()
+            hist = history_of(i)
+            htag = play_history(exp, hist, other_js) if hist else ""
             # every third state and every large one is delivered in several chunks
             chunked = (i % 3 == 1) or len(js) > 16384
-            exp.obs.set_mode("chunked" if chunked else "valid", js)
-            r = D.http_get(exp, 5.0)
-            if exp.exit_code() is not None:
-                raise RuntimeError("exporter exited (status %s) while serving case %d: %s" % (exp.exit_code(), i, exp.stderr_tail()))
+            exp.obs.set_mode("chunked" if chunked else "valid", js, delay=slow_of(i))
+            # everything the exporter writes on this connection, up to its close
+            r = D.http_get(exp, 5.0 + slow_of(i), until_eof=True)
+            exp.obs.delay = 0.0
             tag = str(r[1]) if r[0] == "status" else r[0]
-            cases.append((i, "%s:%s%s" % (cls, tag, ":chunked" if chunked else ""), "(%s, %s, %s, %s)" % (st, ft, pack(js), pack(r[2]))))
+            if r[0] != "status":
+                exp.wait_exit(1.0)          # no response at all: has the process gone?
+            if exp.exit_code() is not None:
+                tag += ":exited(%s)" % exp.exit_code()
+                if notes is not None:
+                    notes.append("exporter exited (status %s) while serving state #%d after history [%s]: %s" % (
+                        exp.exit_code(), i, htag, exp.stderr_tail()[-300:]))
+            cases.append((i, "%s:%s%s%s%s" % (cls, tag, ":chunked" if chunked else "", ":slow" if slow_of(i) else "",
+                                             (":after[" + htag + "]") if htag else ""),
+                          "(%s, %s, %s, %s)" % (st, ft, pack(js), pack(r[2]))))
+            other_js = js
+    finally:
+        proc.close()
+    if notes is not None and proc.starts > 1:
+        notes.append("the exporter had to be started %d times" % proc.starts)
     return cases
 
 
@@ -169,9 +280,15 @@ def run(tier, seed, replay=None):
             vlib.log("replay file names a broken obligation, not an input:")
             vlib.log(vlib.json.dumps(obj, indent=1)[:3000])
             return 1
-        rc, out = vlib.run_bin("debug", "c19", ["--seed", obj["seed"], "--only", obj["index"]])
-        cases = drive_cases(vlib.parse_case_lines(out), D.EXPORTER)
-        vlib.log("regenerated state %d of seed %d and served it to the current exporter binary: %s" % (obj["index"], obj["seed"], cases[0][1]))
+        # the state before it lends its JSON to the history (what the resetting clients were served)
+        first = max(obj["index"] - 1, 0)
+        rc, out = vlib.run_bin("debug", "c19", ["--seed", obj["seed"], "--start", first, "--count", obj["index"] - first + 1])
+        notes = []
+        cases = drive_cases(vlib.parse_case_lines(out), D.EXPORTER, only={obj["index"]}, notes=notes)
+        vlib.log("regenerated state %d of seed %d and served it to a fresh process of the current exporter binary after its history %s: %s" % (
+            obj["index"], obj["seed"], history_of(obj["index"]), cases[0][1]))
+        for n in notes:
+            vlib.log(n)
         mm, bad, err = vlib.eval_cases(prop, spec.case_module, cases, tag="replay")
         if err:
             vlib.log(err)
@@ -191,8 +308,9 @@ def run(tier, seed, replay=None):
         vlib.write_fail(ctx, "harness-run", out[-3000:])
         return vlib.finish(ctx)
     lines = vlib.parse_case_lines(out)
+    notes = []
     try:
-        cases = drive_cases(lines, D.EXPORTER)
+        cases = drive_cases(lines, D.EXPORTER, notes=notes)
     except Exception as ex:
         ctx.problems.append("driving the exporter failed: %r" % ex)
         vlib.write_fail(ctx, "driver", repr(ex))
@@ -224,8 +342,9 @@ def run(tier, seed, replay=None):
         if len(ctx.violations) < 5:
             path = vlib.write_replay(prop, "c19-debug-%d" % c[0], {
                 "property": prop, "bin": "c19", "profile": "debug", "seed": seed, "index": c[0], "class": c[1],
+                "history": history_of(c[0]), "slow_observation_socket": bool(slow_of(c[0])),
                 "case": c[2][:6000],
-                "what": "the bytes produced by the implementation (serde_json::to_vec of the state / HTTP response of the real exporter) are rejected by the property oracle ok_C19 evaluated in Coq",
+                "what": "the bytes produced by the implementation (serde_json::to_vec of the state / EVERYTHING the real exporter wrote on the connection of this request, after the history of other clients named here) are rejected by the property oracle ok_C19 evaluated in Coq: not exactly one response whose Content-Length matches and whose values are those of the state served for this request",
                 "how_to_replay": "./check C19 --replay <this file>"})
             ctx.violations.append((path, ""))
     ctx.known_lines.sort()
@@ -245,6 +364,9 @@ def run(tier, seed, replay=None):
         "class_histogram": hist,
         "model_impl_disagreements": len(mm),
         "metric_table_rows": len(re.findall(r"mkMetric ", open(gen_metric_table.OUT).read())) - 1,
+        "served_after_a_history": sum(1 for c in cases if ":after[" in c[1]),
+        "pending_response_resets_unconfirmed": sum(c[1].count("(unconfirmed)") for c in cases),
+        "driver_notes": notes[:5],
     })
     if not mm and not ctx.violations and not err:
         # the case files are large (every response travels into Coq); keep them only for diagnosis
